@@ -7,6 +7,7 @@ mod eff;
 mod eng;
 mod pm;
 mod rm;
+mod stress;
 mod txt;
 
 use std::io::{BufRead, BufWriter, Write};
@@ -18,6 +19,7 @@ fn run_case(toks: &[&str]) -> String {
         Some("effnew") => eff::run_effnew(toks),
         Some("rm") => rm::run_rm(toks),
         Some("pm") => pm::run_pm(toks),
+        Some("stress") => stress::run_stress(toks),
         Some("savecrash") => crash::run_savecrash(toks),
         Some("csv") | Some("esc") | Some("rmc") | Some("csvf") | Some("ini") | Some("mdl") | Some("totext") => txt::run_txt(toks),
         Some("eng") => eng::run_eng(toks, false),
